@@ -174,7 +174,23 @@ func (p *Parser) CreateBuilder() *builder.FunctionBuilder {
 // The resulting code can be used as a starting point for the code generation process.
 // GenerateBaseCode returns the resulting code as a string, or an error if the generation process fails.
 func (p *Parser) GenerateBaseCode() (code string, err error) {
+	// The lines of the comments removed here go away with them. A line left empty
+	// between the rest of a doc comment and its declaration would detach the two.
+	var gone []int
+	tokFile := p.fset.File(p.file.Pos())
+	for _, group := range p.file.Comments {
+		for _, c := range group.List {
+			if reGoBuildGen.MatchString(c.Text) {
+				gone = append(gone, tokFile.Line(c.Slash))
+			}
+		}
+	}
 	util.RemoveMatchComments(p.file, reGoBuildGen)
+	for i := len(gone) - 1; 0 <= i; i-- {
+		if gone[i] < tokFile.LineCount() {
+			tokFile.MergeLine(gone[i])
+		}
+	}
 
 	// Remove doc comment of the interface.
 	// And also find the range pos of the interface in the code.
